@@ -11,6 +11,8 @@ comma-separated ints (`1,2,0`; a network node or Voronoi index is a single int);
   tryrandom 0|1 | randempty d... | randcell d...           -> result + full observation dump
   conns c | nbhd c r ic | nbprop c | mask c r ic           -> result only
   nbagents c r ic                                          -> agents in the (memoised) neighbourhood, sorted
+  connect c c2 key|- | disconnect c c2                     -> result only (`Cell.connect(other, key)` / `Cell.disconnect(other)`
+                                                              after construction; `-`: the default key `other.coordinate`)
 """
 from __future__ import annotations
 
@@ -250,10 +252,13 @@ def exc_name(e):
         return "Key"
     if isinstance(e, IndexError):
         return "Index"
+    if isinstance(e, TypeError) and "unhashable" in msg:
+        return "Type"
     raise e
 
 
-QUERIES = ("conns", "nbhd", "nbprop", "mask", "nbagents")
+EDITS = ("connect", "disconnect")
+QUERIES = ("conns", "nbhd", "nbprop", "mask", "nbagents") + EDITS  # lines answered with a result only (no dump)
 
 
 class Header:
@@ -377,6 +382,12 @@ class Impl:
 
     def query(self, w):
         sp, k = self.space, w[0]
+        if k == "connect":
+            sp[self.h.key(w[1])].connect(sp[self.h.key(w[2])], None if w[3] == "-" else self.h.key(w[3]))
+            return "ok"
+        if k == "disconnect":
+            sp[self.h.key(w[1])].disconnect(sp[self.h.key(w[2])])
+            return "ok"
         if k == "conns":
             cell = sp[self.h.key(w[1])]
             items = sorted((tuple(kk) if isinstance(kk, tuple) else (kk,), v) for kk, v in cell.connections.items())
@@ -491,6 +502,41 @@ def spec_connections(h):
     return res
 
 
+def apply_edit(conn, h, w):
+    """a `connect` / `disconnect` line applied to the spec connections {cell: {key: cell}} (a dict assignment /
+    the deletion of every key leading to the other cell); lines the implementation has to reject change nothing"""
+    try:
+        c, c2 = h.key(w[1]), h.key(w[2])
+    except ValueError:
+        return
+    if c not in conn or c2 not in conn:
+        return
+    if w[0] == "connect":
+        if w[3] == "-":
+            if h.kind == "vor":
+                return  # the coordinate of a Voronoi cell is a list: not a dict key
+            key = c2
+        else:
+            key = h.key(w[3])
+        conn[c][key] = c2
+    else:
+        for k in [k for k, v in conn[c].items() if v == c2]:
+            del conn[c][k]
+
+
+def expect_edit(conn, h, w):
+    """the result a `connect` / `disconnect` line must have"""
+    try:
+        c, c2 = h.key(w[1]), h.key(w[2])
+    except ValueError:
+        return None
+    if c not in conn or c2 not in conn:
+        return "err Key"
+    if w[0] == "connect" and w[3] == "-" and h.kind == "vor":
+        return "err Type"
+    return "ok"
+
+
 def within(conn, c, r):
     """cells within r connection hops of c (0 hops = c itself)"""
     seen = {c}
@@ -601,7 +647,7 @@ def gen_net_header(R, max_nodes=8, caps=(None, None, 1, 1, 2, 3), directed_p=0.1
     return f"scenario net {int(directed)} {'-' if cap is None else cap} {n} " + " ".join(f"{a}-{b}" for a, b in edges)
 
 
-FALLBACK_POINTS = [(0, 0), (7, 1), (3, 6), (-4, 5), (-2, -6)]
+FALLBACK_POINTS = [(-3, -6), (6, -9), (3, 4), (-9, 5), (-1, -2)]  # in general position, also with the frame corners
 
 
 def gen_vor_header(R, max_points=7, caps=(None, None, 1, 1, 2, 3), span=9):
@@ -684,7 +730,7 @@ def gen_draws(R, impl, want_hit):
     return [R.randrange(0, 3 * n)] if want_hit else []
 
 
-def gen_c06(R, rejecting=False, n_ops=None, header=None):
+def gen_c06(R, rejecting=False, n_ops=None, header=None, edits=False):
     hd = header or (gen_header(R) if not rejecting else
                     R.choice([gen_grid_header(R, max_size=3, caps=(1, 1, 1, 2), max_cells=12),
                               gen_grid_header(R, max_size=3, caps=(1, 1, 1, 2), max_cells=12),
@@ -731,6 +777,17 @@ def gen_c06(R, rejecting=False, n_ops=None, header=None):
             m = g = None
         m = a if m is None else m
         g = a if g is None else g
+        if edits and R.random() < 0.05:
+            # connections edited after construction, mostly at the cell of an agent that can move: later relative moves
+            # and neighbourhood views follow the edited structure
+            cell = impl.agents[m].cell if m < na else None
+            nbrs = {impl.cname(c): [impl.cname(v) for v in c.connections.values()] for c in impl.space.all_cells}
+            e = gen_edit(R, h, names, near=impl.cname(cell) if cell is not None else None, nbrs=nbrs)
+            q = f"nbagents {e.split()[1]} {R.choice([1, 1, 2])} {R.randint(0, 1)}" if R.random() < 0.6 else None
+            for l in (q, e, q):
+                if l:
+                    emit(l)
+            continue
         if rejecting:
             # mostly calls that are likely to be rejected, interleaved with valid ones
             full = [n for n in names if impl.space[h.key(n)].is_full]
@@ -800,13 +857,19 @@ def oracle_c06(sc, obs, reject_clause=True):
     names = cell_names(h)
     cap = h.cap
     prev = None
-    conn = None
+    conn = spec_connections(h) if any(l.split()[0] in EDITS + ("nbagents",) for l in sc.lines[1:]) else None
     for line, o in zip(sc.lines[1:], obs[1:]):
         w = line.split()
         if w[0] in QUERIES:
+            if w[0] in EDITS:
+                # connections edited after construction: the neighbourhoods below are those of the edited structure
+                want = expect_edit(conn, h, w)
+                if want is not None and o != want:
+                    bad.append(f"edit: `{line}` -> {o}, expected {want}")
+                if want == "ok":
+                    apply_edit(conn, h, w)
             if w[0] == "nbagents" and prev is not None and o.startswith("ok") and int(w[2]) >= 1:
                 # a (memoised) neighbourhood shows the agents that are in its cells *now*
-                conn = conn or spec_connections(h)
                 key = h.key(w[1])
                 if key in conn:
                     cells = within(conn, key, int(w[2]))
@@ -970,6 +1033,31 @@ def exhaustive_c07(tier):
     return out
 
 
+def edit_sweeps():
+    """connections edited after construction, small scope: on five small spaces, for every ordered pair of cells: every
+    neighbourhood query, `connect a b` (default key; Voronoi: key a,b), every query again, `disconnect a b`, every query
+    again — the memoised answers of the first round must not survive the edits"""
+    out = []
+    heads = ["scenario net 0 - 4 0-1 1-2 2-3", "scenario net 1 - 3 0-1 1-2", grid_header("vn", 0, (2, 3)),
+             grid_header("moore", 1, (1, 3)), grid_header("hex", 0, (2, 2)),
+             f"scenario vor - {len(FALLBACK_POINTS)} " + " ".join(f"p:{x},{y}" for x, y in FALLBACK_POINTS) + " " + " ".join(
+                 f"t:{a},{b},{c}" for a, b, c in voronoi_ok(FALLBACK_POINTS))]
+    for hd in heads:
+        h = Header(hd.split())
+        names = cell_names(h)
+        qs = []
+        for n in names:
+            qs += [f"nbhd {n} 1 0", f"nbhd {n} 2 1 k", f"nbprop {n}", f"nbhd {n} 2 0 m"]
+            if h.kind == "grid":
+                qs.append(f"mask {n} 1 1")
+        for a in names:
+            for b in names:
+                key = f"{a},{b}" if h.kind == "vor" else "-"
+                out.append(core.Scenario([hd] + qs + [f"connect {a} {b} {key}"] + qs + [f"conns {a}", f"disconnect {a} {b}"]
+                                         + qs + [f"conns {a}"], {"exhaustive": True}))
+    return out
+
+
 def gen_c07(R, tier):
     k = R.random()
     if k < 0.40:
@@ -1007,7 +1095,41 @@ def gen_c07(R, tier):
     # repetition and a second order of the same queries: answers must not depend on earlier queries
     qs += [R.choice(qs) for _ in range(len(qs) // 2)]
     R.shuffle(qs)
+    if R.random() < 0.35:
+        # connections edited between the queries (`Cell.connect` / `disconnect`): a query repeated after an edit near its
+        # cell must see the edited structure, not a memoised answer
+        spec = spec_connections(h)
+        nbrs = {fmt_name(c): [fmt_name(v) for v in m.values()] for c, m in spec.items()}
+        for _ in range(R.randint(1, 4)):
+            i = R.randrange(len(qs) + 1)
+            e = gen_edit(R, h, names, near=qs[R.randrange(max(1, i))].split()[1] if qs and R.random() < 0.7 else None, nbrs=nbrs)
+            again = [q for q in qs[:i] if q.split()[0] in ("nbhd", "nbprop", "mask")]
+            qs[i:i] = [e] + ([R.choice(again)] if again and R.random() < 0.8 else [])
     return core.Scenario(lines + qs)
+
+
+def gen_edit(R, h, names, near=None, nbrs=None):
+    """a `connect` / `disconnect` line; `near`: a cell name to edit at (or next to), `nbrs`: {name: names of connected cells}"""
+    a = near if near in names and R.random() < 0.8 else R.choice(names)
+    nb = (nbrs or {}).get(a) or []
+    if nb and near is not None and R.random() < 0.3:
+        a = R.choice(nb)  # one hop away from the queried cell: changes its radius >= 2 answers only
+        nb = (nbrs or {}).get(a) or []
+    b = R.choice(nb) if nb and R.random() < 0.6 else R.choice(names)
+    if R.random() < 0.04:
+        a = ",".join(str(d) for d in h.dims) if h.kind == "grid" else str(h.n + 1)  # no such cell
+    if R.random() < 0.4:
+        return f"disconnect {a} {b}"
+    k = R.random()
+    if k < 0.35:
+        key = "-"
+    elif h.kind == "grid":
+        key = ",".join(str(R.choice([-1, 0, 1, 1, 2])) for _ in h.dims)
+    elif h.kind == "net":
+        key = str(R.randrange(h.n + 2))
+    else:
+        key = f"{a.split(',')[0]},{R.randrange(h.n)}"
+    return f"connect {a} {b} {key}"
 
 
 def oracle_c07(sc, obs):
@@ -1026,6 +1148,15 @@ def oracle_c07(sc, obs):
                 assert c in conn[t].values(), "spec geometry must be symmetric"
     for line, o in zip(sc.lines[1:], obs[1:]):
         w = line.split()
+        if w[0] in EDITS:
+            # `Cell.connect` / `disconnect` after construction: from here on "connection hops" are those of the edited
+            # structure, whatever was asked (and memoised) before
+            want = expect_edit(conn, h, w)
+            if want is not None and o != want:
+                bad.append(f"edit: `{line}` -> {o}, expected {want}")
+            if want == "ok":
+                apply_edit(conn, h, w)
+            continue
         if w[0] not in ("conns", "nbhd", "nbprop", "mask"):
             continue
         try:
@@ -1078,9 +1209,11 @@ def tags_c07(sc, obs):
         yield "op:" + w[0]
         if w[0] == "nbhd":
             yield f"radius:{w[2]}"
+        if w[0] in EDITS and o == "ok":
+            yield "branch:connections-edited" + ("-after-queries" if seen else "")
         if o.startswith("err"):
             yield f"reject:{w[0]}:{o.split()[1]}"
-        if o == "ok":
+        if o == "ok" and w[0] not in EDITS:
             yield f"empty-answer:{w[0]}"
         if l in seen:
             yield "repeated-query"
